@@ -4,7 +4,7 @@ From Spox Require Import Tensor.
 Import ListNotations.
 Open Scope N_scope.
 
-Ltac Zify.zify_post_hook ::= Z.div_mod_to_equations.
+Ltac Zify.zify_post_hook ::= Z.to_euclidean_division_equations.
 
 (* ------------------------------------------------------------------ small list facts *)
 Lemma len_map {A B} (f : A -> B) l : len (map f l) = len l.
@@ -52,6 +52,13 @@ Proof.
   pose proof (N.pow_nonzero 2 k). rewrite N.add_comm. symmetry. apply N.div_mod. lia.
 Qed.
 
+Lemma lo_hi k a b : a < 2 ^ k -> (a + 2 ^ k * b) mod 2 ^ k = a /\ (a + 2 ^ k * b) / 2 ^ k = b.
+Proof.
+  intros Ha. pose proof (N.pow_nonzero 2 k) as Hk.
+  assert (E : a + 2 ^ k * b = a + b * 2 ^ k) by lia. rewrite E.
+  rewrite N.mod_add by lia. rewrite N.div_add by lia. rewrite N.mod_small, N.div_small by assumption. auto.
+Qed.
+
 Lemma split_join_parts k a b : a < 2 ^ k -> split k (a + 2 ^ k * b) = [a; b].
 Proof.
   intros Ha. unfold split. pose proof (N.pow_nonzero 2 k) as Hk.
@@ -84,7 +91,7 @@ Qed.
 
 Lemma canon_lt e w : w < 2 ^ width e -> canon e w < 2 ^ width e.
 Proof.
-  destruct e; cbn [canon width]; auto.
+  destruct e; unfold canon, width; auto.
   - apply quiet32_lt.
   - intros H. change (2 ^ 64) with (2 ^ 32 * 2 ^ 32) in *.
     assert (w mod 2 ^ 32 < 2 ^ 32) by (apply N.mod_lt; discriminate).
@@ -96,14 +103,14 @@ Qed.
 
 Lemma canon_idem e w : w < 2 ^ width e -> canon e (canon e w) = canon e w.
 Proof.
-  destruct e; cbn [canon width]; auto.
+  destruct e; unfold canon, width; auto.
   - intros _. apply quiet32_idem.
   - intros H. change (2 ^ 64) with (2 ^ 32 * 2 ^ 32) in *.
     assert (Hl : w mod 2 ^ 32 < 2 ^ 32) by (apply N.mod_lt; discriminate).
     assert (Hh : w / 2 ^ 32 < 2 ^ 32) by (apply N.div_lt_upper_bound; [discriminate|exact H]).
     pose proof (quiet32_lt _ Hl) as Hl'.
-    pose proof (split_join_parts 32 _ (quiet32 (w / 2 ^ 32)) Hl') as S. unfold split in S.
-    injection S as S1 S2. rewrite S1, S2, !quiet32_idem. reflexivity.
+    destruct (lo_hi 32 _ (quiet32 (w / 2 ^ 32)) Hl') as [S1 S2].
+    rewrite S1, S2, !quiet32_idem. reflexivity.
   - intros _. apply sat_e5m2_idem.
   - intros _. destruct (w =? 0) eqn:E; [reflexivity|now rewrite E].
 Qed.
@@ -163,11 +170,11 @@ Lemma pack2_spec ws : Forall (fun w => w < 4) ws ->
 Proof.
   induction ws as [|a|a b|a b c|a b c d t IH] using list_ind4; intros HF.
   - cbn. auto.
-  - inversion HF; subst. cbn. repeat split; [constructor; [lia|constructor]| |lia]. f_equal. lia.
+  - inversion HF; subst. cbn [pack2 unpack2 flat_map app length firstn]. repeat split; [constructor; [lia|constructor]| |lia]. f_equal. lia.
   - inversion HF as [|? ? Ha HF1]; subst. inversion HF1 as [|? ? Hb HF2]; subst.
-    cbn. repeat split; [constructor; [lia|constructor]| |lia]. f_equal; [|f_equal]; lia.
+    cbn [pack2 unpack2 flat_map app length firstn]. repeat split; [constructor; [lia|constructor]| |lia]. f_equal; [|f_equal]; lia.
   - inversion HF as [|? ? Ha HF1]; subst. inversion HF1 as [|? ? Hb HF2]; subst. inversion HF2 as [|? ? Hc HF3]; subst.
-    cbn. repeat split; [constructor; [lia|constructor]| |lia]. f_equal; [|f_equal; [|f_equal]]; lia.
+    cbn [pack2 unpack2 flat_map app length firstn]. repeat split; [constructor; [lia|constructor]| |lia]. f_equal; [|f_equal; [|f_equal]]; lia.
   - inversion HF as [|? ? Ha HF1]; subst. inversion HF1 as [|? ? Hb HF2]; subst. inversion HF2 as [|? ? Hc HF3]; subst.
     inversion HF3 as [|? ? Hd HF4]; subst.
     destruct (IH HF4) as (I1 & I2 & I3).
@@ -257,3 +264,193 @@ Proof.
   induction ss as [|s ss IH]; [reflexivity|]. cbn [forallb map all_some]. intros H. apply andb_prop in H. destruct H as [H1 H2].
   rewrite utf8_roundtrip by assumption. now rewrite (IH H2).
 Qed.
+
+(* ------------------------------------------------------------------ the typed path *)
+Definition stable (e : elem) (w : N) : Prop := w < 2 ^ width e /\ canon e w = w.
+
+Lemma stable_canon e ws : Forall (fun w => w < 2 ^ width e) ws -> Forall (stable e) (map (canon e) ws).
+Proof. intros H. apply Forall_map'. induction H; constructor; auto. split; [now apply canon_lt|now apply canon_idem]. Qed.
+
+Lemma stable_c64_parts w : stable C64 w -> quiet32 (w mod 2 ^ 32) = w mod 2 ^ 32 /\ quiet32 (w / 2 ^ 32) = w / 2 ^ 32.
+Proof.
+  intros [Hlt Hc]. unfold canon in Hc. unfold width in Hlt.
+  assert (Hl : w mod 2 ^ 32 < 2 ^ 32) by (apply N.mod_lt; discriminate).
+  pose proof (quiet32_lt _ Hl) as Hl'.
+  destruct (lo_hi 32 _ (quiet32 (w / 2 ^ 32)) Hl') as [S1 S2]. rewrite Hc in S1, S2. auto.
+Qed.
+
+Lemma typed_roundtrip e ws n : e <> Str -> n = len ws -> Forall (stable e) ws ->
+  decode_words e n (pack_typed e ws) = Some ws.
+Proof.
+  intros Hne Hn HF. unfold decode_words.
+  assert (Hlt : Forall (fun w => w < 2 ^ width e) ws) by (eapply Forall_impl; [|exact HF]; intros ? [? ?]; assumption).
+  assert (Hst : Forall (fun w => canon e w = w) ws) by (eapply Forall_impl; [|exact HF]; intros ? [? ?]; assumption).
+  destruct e; try congruence; unfold pack_typed, decode_typed; cbn [store_of get_float get_double get_int32 get_int64 get_uint64];
+  try (f_equal; now apply map_wrap_of_N);
+  try (f_equal; apply map_wrap_sext; [reflexivity|assumption]);
+  try (f_equal; apply map_fix; eapply Forall_impl; [|exact Hlt]; intros; now apply N.mod_small);
+  try apply join_split;
+  try reflexivity.
+  - (* F32 *) f_equal. apply map_fix. exact Hst.
+  - (* C64 *)
+    assert (E : map quiet32 (flat_map (split 32) ws) = flat_map (split 32) ws).
+    { clear Hlt Hst Hn. induction HF as [|w ws Hw HF IH]; [reflexivity|].
+      cbn [flat_map split app map]. destruct (stable_c64_parts _ Hw) as [A B]. rewrite A, B. now rewrite IH. }
+    rewrite E. apply join_split.
+  - (* U4 *) destruct (pack4_spec ws Hlt) as (P1 & P2 & P3). rewrite (map_wrap_of_N 8) by exact P1. now apply cut_spec.
+  - (* I4 *) destruct (pack4_spec ws Hlt) as (P1 & P2 & P3). rewrite (map_wrap_of_N 8) by exact P1. now apply cut_spec.
+  - (* F4E2M1 *) destruct (pack4_spec ws Hlt) as (P1 & P2 & P3). rewrite (map_wrap_of_N 8) by exact P1. now apply cut_spec.
+  - (* U2 *) destruct (pack2_spec ws Hlt) as (P1 & P2 & P3). rewrite (map_wrap_of_N 8) by exact P1. now apply cut_spec.
+  - (* I2 *) destruct (pack2_spec ws Hlt) as (P1 & P2 & P3). rewrite (map_wrap_of_N 8) by exact P1. now apply cut_spec.
+Qed.
+
+Lemma decode_num e dims (d : pdata) ws : e <> Str -> len ws = prod dims ->
+  decode_words e (prod dims) d = Some ws ->
+  decode (mkP (code e) dims d) = Some (mkT e dims (PNum ws)).
+Proof.
+  intros Hne Hl H. unfold decode. cbn [p_dtype p_dims p_data]. rewrite of_code_code.
+  destruct e; try congruence; cbv beta iota zeta; rewrite H, Hl, N.eqb_refl; reflexivity.
+Qed.
+
+Lemma wf_num e dims ws : wf (mkT e dims (PNum ws)) = true ->
+  e <> Str /\ len ws = prod dims /\ Forall (fun w => w < 2 ^ width e) ws.
+Proof.
+  unfold wf. cbn [t_elem t_data t_dims]. intros H.
+  assert (Hne : e <> Str) by (intros ->; discriminate).
+  assert (H' : (len ws =? prod dims) && forallb (fun w => w <? 2 ^ width e) ws = true) by (destruct e; try congruence; exact H).
+  apply andb_prop in H'. destruct H' as [H1 H2]. apply N.eqb_eq in H1. apply forallb_Forall in H2.
+  repeat split; auto. eapply Forall_impl; [|exact H2]. intros a Ha. now apply N.ltb_lt.
+Qed.
+
+Lemma wf_str e dims ss : wf (mkT e dims (PStr ss)) = true ->
+  e = Str /\ len ss = prod dims /\ forallb (forallb scalar_value) ss = true.
+Proof.
+  unfold wf. cbn [t_elem t_data t_dims]. destruct e; try discriminate. intros H. apply andb_prop in H. destruct H as [H1 H2].
+  apply N.eqb_eq in H1. auto.
+Qed.
+
+Lemma decode_str dims ss : len ss = prod dims -> forallb (forallb scalar_value) ss = true ->
+  decode (mkP (code Str) dims (DString (map utf8 ss))) = Some (mkT Str dims (PStr ss)).
+Proof.
+  intros Hl Hs. unfold decode. cbn [p_dtype p_dims p_data get_string]. rewrite of_code_code. cbv beta iota.
+  rewrite utf8_all by assumption. now rewrite Hl, N.eqb_refl.
+Qed.
+
+(* the pinned tree: the embedded tensor is the array with every word passed through [canon] *)
+Theorem decode_encode_pinned t : wf t = true -> decode (encode_pinned t) = Some (canon_tensor t).
+Proof.
+  destruct t as [e dims [ws|ss]]; intros H.
+  - destruct (wf_num _ _ _ H) as (Hne & Hl & HF). unfold encode_pinned, canon_tensor. cbn [t_elem t_dims t_data].
+    apply decode_num; [assumption|now rewrite len_map|].
+    apply typed_roundtrip; [assumption|now rewrite len_map|now apply stable_canon].
+  - destruct (wf_str _ _ _ H) as (-> & Hl & Hs). unfold encode_pinned, canon_tensor. cbn [t_elem t_dims t_data].
+    now apply decode_str.
+Qed.
+
+Lemma lossless_all e ws : forallb (lossless e) ws = true -> map (canon e) ws = ws.
+Proof.
+  intros H. apply map_fix. apply forallb_Forall in H. eapply Forall_impl; [|exact H]. intros a Ha. now apply N.eqb_eq.
+Qed.
+
+Definition all_lossless (t : tensor) : bool :=
+  match t_data t with PNum ws => forallb (lossless (t_elem t)) ws | PStr _ => true end.
+
+(* ... hence exact whenever no word is one of the lossy patterns *)
+Theorem decode_encode_pinned_lossless t : wf t = true -> all_lossless t = true -> decode (encode_pinned t) = Some t.
+Proof.
+  intros H HL. rewrite decode_encode_pinned by assumption. destruct t as [e dims [ws|ss]]; [|reflexivity].
+  unfold canon_tensor, all_lossless in *. cbn [t_elem t_dims t_data] in *. now rewrite lossless_all.
+Qed.
+
+(* ------------------------------------------------------------------ the raw path *)
+Lemma lossy_elems e ws : forallb (lossless e) ws = false -> e = F32 \/ e = C64 \/ e = F8E5M2 \/ e = F8E8M0.
+Proof.
+  intros H.
+  assert (K : (forall w, lossless e w = true) -> False).
+  { intros A. assert (forallb (lossless e) ws = true) by (apply forallb_forall; intros; apply A). congruence. }
+  destruct e; auto; exfalso; apply K; intros w; unfold lossless, canon; apply N.eqb_refl.
+Qed.
+
+Lemma raw_roundtrip e ws : (e = F32 \/ e = C64 \/ e = F8E5M2 \/ e = F8E8M0) -> Forall (fun w => w < 2 ^ width e) ws ->
+  decode_raw e (len ws) (flat_map (to_le (nbytes e)) ws) = Some ws.
+Proof.
+  intros He HF.
+  destruct He as [-> | [-> | [-> | ->]]]; unfold decode_raw, len; cbn [store_of]; rewrite Nat2N.id; apply read_to_le; exact HF.
+Qed.
+
+(* the repaired from_array: exact for every well-formed tensor *)
+Theorem decode_encode t : wf t = true -> decode (encode t) = Some t.
+Proof.
+  destruct t as [e dims [ws|ss]]; intros H.
+  - destruct (wf_num _ _ _ H) as (Hne & Hl & HF). unfold encode. cbn [t_elem t_dims t_data].
+    destruct (forallb (lossless e) ws) eqn:L.
+    + pose proof (decode_encode_pinned_lossless _ H) as P. unfold all_lossless in P. cbn [t_elem t_dims t_data] in P. specialize (P L).
+      unfold encode_pinned in P. cbn [t_elem t_dims t_data] in P. now rewrite lossless_all in P.
+    + apply decode_num; [assumption|assumption|]. rewrite <- Hl. unfold decode_words.
+      apply raw_roundtrip; [now apply lossy_elems with ws|assumption].
+  - destruct (wf_str _ _ _ H) as (-> & Hl & Hs). unfold encode. cbn [t_elem t_dims t_data]. now apply decode_str.
+Qed.
+
+(* the pinned from_array is NOT exact: a binary32 signalling NaN is embedded as a quiet NaN *)
+Theorem pinned_refuted : exists t, wf t = true /\ decode (encode_pinned t) <> Some t.
+Proof. exists (mkT F32 [1] (PNum [0x7F800001])). split; [reflexivity|]. vm_compute. discriminate. Qed.
+
+(* encode and encode_pinned coincide on lossless tensors (the repair changes nothing else) *)
+Theorem encode_conservative t : all_lossless t = true -> encode t = encode_pinned t.
+Proof.
+  destruct t as [e dims [ws|ss]]; unfold all_lossless; cbn [t_data t_elem]; intros H; [|reflexivity].
+  unfold encode, encode_pinned. cbn [t_elem t_dims t_data]. now rewrite H, lossless_all.
+Qed.
+
+(* which words are lossy: exactly binary32 signalling NaNs (alone or as a complex64 component), float8e5m2 infinities
+   and non-canonical NaNs, float8e8m0 pattern 0 *)
+Theorem lossy_characterised e w : w < 2 ^ width e ->
+  (lossless e w = false <->
+   (e = F32 /\ is_snan32 w = true) \/
+   (e = C64 /\ (is_snan32 (w mod 2 ^ 32) = true \/ is_snan32 (w / 2 ^ 32) = true)) \/
+   (e = F8E5M2 /\ (w = 0x7C \/ w = 0xFC \/ w = 0x7D \/ w = 0x7F \/ w = 0xFD \/ w = 0xFF)) \/
+   (e = F8E8M0 /\ w = 0)).
+Proof.
+  intros Hw. unfold lossless.
+  destruct e; unfold canon;
+    try (rewrite N.eqb_refl; split; [discriminate|intros [[? _]|[[? _]|[[? _]|[? _]]]]; discriminate]).
+  - (* F32 *) unfold quiet32. destruct (is_snan32 w) eqn:E.
+    + split; [intros _; left; auto|intros _; apply N.eqb_neq; change (2 ^ 22) with 4194304; lia].
+    + rewrite N.eqb_refl. split; [discriminate|intros [[_ ?]|[[? _]|[[? _]|[? _]]]]; discriminate].
+  - (* C64 *)
+    unfold width in Hw. change (2 ^ 64) with (2 ^ 32 * 2 ^ 32) in Hw.
+    assert (Hl : w mod 2 ^ 32 < 2 ^ 32) by (apply N.mod_lt; discriminate).
+    assert (Hd : w = w mod 2 ^ 32 + 2 ^ 32 * (w / 2 ^ 32)).
+    { rewrite N.add_comm. apply N.div_mod. discriminate. }
+    unfold quiet32. destruct (is_snan32 (w mod 2 ^ 32)) eqn:E1; destruct (is_snan32 (w / 2 ^ 32)) eqn:E2.
+    4: { rewrite <- Hd, N.eqb_refl. split; [discriminate|intros [[? _]|[[_ [?|?]]|[[? _]|[? _]]]]; discriminate]. }
+    all: split; [intros _; right; left; split; auto|].
+    all: intros _; apply N.eqb_neq; change (2 ^ 22) with 4194304 in *; change (2 ^ 32) with 4294967296 in *; lia.
+  - (* F8E5M2 *)
+    unfold width in Hw. change (2 ^ 8) with 256 in Hw. unfold sat_e5m2.
+    repeat match goal with |- context [if ?c then _ else _] => destruct c eqn:? end;
+      (split; [intros ?; right; right; left; split; [reflexivity|lia] | intros [[? _]|[[? _]|[[_ ?]|[? _]]]]; try discriminate; lia]).
+  - (* F8E8M0 *)
+    destruct (w =? 0) eqn:E.
+    + split; [intros _; right; right; right; split; [reflexivity|lia]|intros _; lia].
+    + rewrite N.eqb_refl. split; [discriminate|intros [[? _]|[[? _]|[[? _]|[_ ?]]]]; try discriminate; lia].
+Qed.
+
+(* ------------------------------------------------------------------ type of the Var *)
+Theorem proto_type_encode t : proto_type (encode t) = Some (array_type t) /\ proto_type (encode_pinned t) = Some (array_type t).
+Proof. unfold proto_type, encode, encode_pinned, array_type. cbn [p_dtype p_dims]. now rewrite of_code_code. Qed.
+
+(* ------------------------------------------------------------------ non-vacuity *)
+Example wf_examples :
+  let empty := mkT F32 [2; 0; 3] (PNum []) in
+  let scalar := mkT F32 [] (PNum [0x7F800001]) in                        (* 0-d, signalling NaN *)
+  let u64 := mkT U64 [2] (PNum [18446744073709551615; 0]) in
+  let i4 := mkT I4 [3] (PNum [15; 8; 7]) in
+  let c64 := mkT C64 [1] (PNum [0x7F800001 + 2 ^ 32 * 0x80000000]) in    (* re = sNaN, im = -0.0 *)
+  let s := mkT Str [2] (PStr [[0x1F40D; 0xE9]; []]) in                    (* snake emoji + e-acute; empty string *)
+  forallb wf [empty; scalar; u64; i4; c64; s] = true /\
+  p_data (encode scalar) = DRaw [1; 0; 128; 127] /\ p_data (encode_pinned scalar) = DFloat [0x7FC00001] /\
+  p_data (encode u64) = DUint64 [18446744073709551615; 0] /\
+  p_data (encode i4) = DInt32 [143%Z; 7%Z] /\
+  p_data (encode s) = DString [[0xF0; 0x9F; 0x90; 0x8D; 0xC3; 0xA9]; []].
+Proof. vm_compute. repeat split; reflexivity. Qed.
